@@ -148,7 +148,7 @@ func (e *Engine) newV(x fr.Element) *V {
 func (e *Engine) reject(msg string) {
 	site := ""
 	if !e.opt.NoSite {
-		site = repoSite(3, 3)
+		site = repoSite(3, 4)
 	}
 	panic(rejectPanic{msg, site})
 }
